@@ -371,12 +371,15 @@ type SMTCtx struct {
 	nfresh  int
 	declared map[string]bool
 	defs     map[string]string // defined name -> its definition
+	defLine  map[string]int    // defined name -> index of its line
 }
 
-func newCtx() *SMTCtx { return &SMTCtx{declared: map[string]bool{}, defs: map[string]string{}} }
+func newCtx() *SMTCtx {
+	return &SMTCtx{declared: map[string]bool{}, defs: map[string]string{}, defLine: map[string]int{}}
+}
 
 func (c *SMTCtx) clone() *SMTCtx {
-	n := &SMTCtx{lines: append([]string(nil), c.lines...), nfresh: c.nfresh, declared: map[string]bool{}, defs: c.defs}
+	n := &SMTCtx{lines: append([]string(nil), c.lines...), nfresh: c.nfresh, declared: map[string]bool{}, defs: c.defs, defLine: c.defLine}
 	for k := range c.declared {
 		n.declared[k] = true
 	}
@@ -428,6 +431,7 @@ func (c *SMTCtx) Define(hint string, t Term) Term {
 	name := fmt.Sprintf("%s!%d", sanitize(hint), c.nfresh)
 	c.lines = append(c.lines, fmt.Sprintf("(define-fun %s () %s %s)", name, t.Sort, t.S))
 	c.defs[name] = t.S
+	c.defLine[name] = len(c.lines) - 1
 	return Term{name, t.Sort}
 }
 
